@@ -102,7 +102,11 @@ impl<T: Write + Read + Seek> PagedWriter<T> {
     fn read_current_page(&mut self) -> std::io::Result<()> {
         let mut unread = &mut self.page_buffer[..];
         while !unread.is_empty() {
-            let read = self.writer.read(unread)?;
+            let read = match self.writer.read(unread) {
+                Ok(read) => read,
+                Err(e) if e.kind() == std::io::ErrorKind::Interrupted => continue,
+                Err(e) => return Err(e),
+            };
             if read == 0 {
                 break;
             }
@@ -143,6 +147,15 @@ impl<T: Write + Read + Seek> PagedWriter<T> {
     }
 }
 
+/// Errors of the kind interrupted ask the caller to repeat the call.
+fn not_retryable(e: std::io::Error) -> std::io::Error {
+    if e.kind() == std::io::ErrorKind::Interrupted {
+        std::io::Error::other(e)
+    } else {
+        e
+    }
+}
+
 impl<T: Write + Read + Seek> Write for PagedWriter<T> {
     fn write(&mut self, buf: &[u8]) -> std::io::Result<usize> {
         let remaining_page_bytes = PAGE_PAYLOAD_SIZE - self.offset;
@@ -160,12 +173,16 @@ impl<T: Write + Read + Seek> Write for PagedWriter<T> {
             let crc = crc32c::crc32c(&self.page_buffer[..PAGE_PAYLOAD_SIZE]);
 
             self.page_buffer[PAGE_PAYLOAD_SIZE..].copy_from_slice(&crc.to_be_bytes());
+            // The bytes of the caller are consumed at this point: an error of the kind interrupted
+            // would make write_all() send them again, it must not leave this function as such
             self.writer.write_all(&self.page_buffer)?;
 
-            let page_phys_offset = self.writer.stream_position()?;
+            let page_phys_offset = self.writer.stream_position().map_err(not_retryable)?;
             self.offset = 0;
-            self.read_current_page()?;
-            self.writer.seek(SeekFrom::Start(page_phys_offset))?;
+            self.read_current_page().map_err(not_retryable)?;
+            self.writer
+                .seek(SeekFrom::Start(page_phys_offset))
+                .map_err(not_retryable)?;
         }
         #[cfg(e57_verif)]
         if crate::verif_trace::enabled() {
